@@ -741,8 +741,12 @@ impl<'a> Gen<'a> {
             self.where_block(fl, anchor, None);
             return;
         }
+        // Exact flavor (mutation WHERE, EXPORT selection): now and then a KQL-only pattern
+        // (BELIEF / BELIEF SLOT) that every entry point must refuse there - the negative half of
+        // "classification agrees between the entry points"
         let n_kinds = if fl == Flavor::Kql { 14 } else { 10 };
-        match self.rng.below(n_kinds) {
+        let pick = if fl != Flavor::Kql && self.chance(1, 16) { 10 + self.rng.below(4) } else { self.rng.below(n_kinds) };
+        match pick {
             0 => {
                 let v = self.fresh_var();
                 let k = if self.rng.bool() { BindKind::Concept } else { BindKind::ConceptKw };
